@@ -1,6 +1,17 @@
-from ...utils.bitfun import wrap_negative, BitView
+from ...utils.bitfun import wrap_negative, inrange, BitView
 from ..encoding import Relocation
 from .tokens import RiscvToken, RiscvIToken, RiscvSBToken
+
+
+def signed_field(value, bits):
+    """Two's complement pattern of a signed displacement.
+
+    Raises ValueError when the value does not fit a signed field of the
+    given size (wrap_negative alone also accepts 2**(bits-1)..2**bits-1,
+    which would alias a negative displacement)."""
+    if not inrange(value, bits):
+        raise ValueError(f"Cannot encode displacement {value} in {bits} bits")
+    return wrap_negative(value, bits)
 
 
 class BImm12Relocation(Relocation):
@@ -12,7 +23,7 @@ class BImm12Relocation(Relocation):
         assert sym_value % 2 == 0
         assert reloc_value % 2 == 0
         offset = (sym_value - reloc_value) // 2
-        return wrap_negative(offset, 12)
+        return signed_field(offset, 12)
 
     def apply(self, sym_value, data, reloc_value):
         """Apply this relocation type given some parameters.
@@ -35,7 +46,7 @@ class BImm20Relocation(Relocation):
         assert sym_value % 2 == 0
         assert reloc_value % 2 == 0
         offset = sym_value - reloc_value
-        rel20 = wrap_negative(offset >> 1, 20)
+        rel20 = signed_field(offset >> 1, 20)
         bv = BitView(data, 0, 4)
         bv[21:31] = rel20 & 0x3FF
         bv[20:21] = rel20 >> 10 & 0x1
